@@ -3,6 +3,7 @@ package harness
 import (
 	"context"
 	"fmt"
+	"runtime"
 	"sort"
 	"sync"
 	"testing"
@@ -48,6 +49,7 @@ import (
 //   asked (by coordinator.ShouldProcess, for a result whose transmission failed) after AddBlockHistoryHook ran; there the
 //   harness publishes and lets the store's goroutine take the update.  The observation must carry one of the two views.
 func c08RunRestage(t *testing.T, rc c08ScriptRecipe, em *Emitter) []c08Shot {
+	var wgFn types.WorkIDGenerator
 	r := NewRng(rc.Seed)
 	digest := genHash(r)
 	const N, F = 4, 1
@@ -57,7 +59,7 @@ func c08RunRestage(t *testing.T, rc c08ScriptRecipe, em *Emitter) []c08Shot {
 		sn := &c08SNode{hook: h, byWid: map[string]ocr2keepers.CheckResult{}, seen: map[string]time.Time{}, stagedAt: map[int]time.Time{},
 			rec: map[string]uint64{}, pending: map[string]bool{}, props: map[string]c08PropEntry{}, hist: ocr2keepers.BlockHistory{},
 			at: map[string]time.Time{}, exact: map[int]bool{}}
-		sn.Node = c08NewHookedNode(t, NodeOpts{N: N, F: F, Digest: digest, OracleID: i}, h)
+		sn.Node = c08NewHookedNode(t, NodeOpts{N: N, F: F, Digest: digest, OracleID: i}, h, wgFn)
 		sn.Run.mu.Lock()
 		sn.Run.fn = sn.pipeline
 		sn.Run.mu.Unlock()
@@ -230,7 +232,22 @@ type c08ScriptRecipe struct {
 	BothEmpty bool   `json:"bothEmpty"` // node B goes through the same empty round (otherwise it keeps a candidate)
 	Reorg     bool   `json:"reorg"`
 	Readd     bool   `json:"readd"`
+	LongIDs   bool   `json:"longIDs"` // a structured work-id scheme with ids of 96 characters, many logs of two busy upkeeps
 	Shot      int    `json:"shot"` // the round this line is about (-1: all)
+}
+
+const c08GcInterval = 30 * time.Second // pkg/v3/stores/result_store.go gcInterval (regenerated as Gen.gcIntervalNs)
+
+// c08LongWorkID is a structured work-id scheme (the generator is injected into the factory; nothing restricts its shape):
+// 64 hex characters for the upkeep followed by the log's index as 32 hex digits — 96 characters, and the ids of the logs of
+// one upkeep differ in the last characters only.  Like the production generators it ignores the check block and the log's
+// block number.
+func c08LongWorkID(uid ocr2keepers.UpkeepIdentifier, trig ocr2keepers.Trigger) string {
+	base := wg(uid, ocr2keepers.Trigger{})
+	if e := trig.LogTriggerExtension; e != nil {
+		return base + fmt.Sprintf("%032x", e.Index)
+	}
+	return base + fmt.Sprintf("%032x", 0)
 }
 
 type c08ScriptInput struct {
@@ -277,13 +294,16 @@ func (h *c08Hook) typeGetter(uid ocr2keepers.UpkeepIdentifier) types.UpkeepType 
 }
 
 // c08NewHookedNode is NewNode with the upkeep-type getter replaced by the hook (same factory call otherwise).
-func c08NewHookedNode(t testing.TB, o NodeOpts, h *c08Hook) *Node {
+func c08NewHookedNode(t testing.TB, o NodeOpts, h *c08Hook, wgFn types.WorkIDGenerator) *Node {
+	if wgFn == nil {
+		wgFn = wg
+	}
 	n := &Node{Logs: &fakeLogProvider{}, Events: &fakeEvents{}, Blocks: &fakeBlocks{}, Recov: &fakeRecoverable{},
 		Getter: &fakeGetter{}, Run: &fakeRunnable{}, Enc: &recEncoder{}, States: &fakeStateUpdater{}, N: o.N, F: o.F}
 	n.Digest = ocr2plustypes.ConfigDigest(o.Digest)
 	fac := plugin.NewReportingPluginFactory(n.Logs, n.Events, n.Blocks, n.Recov, fakeBuilder{}, n.Getter, n.Run,
 		runner.RunnerConfig{Workers: 4, WorkerQueueLength: 100, CacheExpire: 20 * time.Minute, CacheClean: 30 * time.Second},
-		n.Enc, h.typeGetter, wg, n.States, quietLogger)
+		n.Enc, h.typeGetter, wgFn, n.States, quietLogger)
 	p, info, err := fac.NewReportingPlugin(context.Background(), ocr3types.ReportingPluginConfig{
 		ConfigDigest: n.Digest, OracleID: commontypes.OracleID(o.OracleID), N: o.N, F: o.F, OffchainConfig: []byte(`{}`),
 	})
@@ -518,6 +538,11 @@ func c08RunScript(t *testing.T, rc c08ScriptRecipe, em *Emitter) []c08Shot {
 	if rc.Variant == "restage" {
 		return c08RunRestage(t, rc, em)
 	}
+	var wgFn types.WorkIDGenerator
+	if rc.LongIDs {
+		wgFn = c08LongWorkID
+	}
+	tc := time.Now() // every ticker of the instances starts now: log flow ticks at tc+1s·j, the store's collector at tc+30s·j
 	r := NewRng(rc.Seed)
 	digest := genHash(r)
 	const N, F = 4, 1
@@ -525,8 +550,9 @@ func c08RunScript(t *testing.T, rc c08ScriptRecipe, em *Emitter) []c08Shot {
 	for i := range nodes {
 		h := &c08Hook{}
 		sn := &c08SNode{hook: h, byWid: map[string]ocr2keepers.CheckResult{}, seen: map[string]time.Time{}, stagedAt: map[int]time.Time{},
-			rec: map[string]uint64{}, pending: map[string]bool{}, props: map[string]c08PropEntry{}, hist: ocr2keepers.BlockHistory{}}
-		sn.Node = c08NewHookedNode(t, NodeOpts{N: N, F: F, Digest: digest, OracleID: i}, h)
+			rec: map[string]uint64{}, pending: map[string]bool{}, props: map[string]c08PropEntry{}, hist: ocr2keepers.BlockHistory{},
+			at: map[string]time.Time{}, exact: map[int]bool{}}
+		sn.Node = c08NewHookedNode(t, NodeOpts{N: N, F: F, Digest: digest, OracleID: i}, h, wgFn)
 		sn.Run.mu.Lock()
 		sn.Run.fn = sn.pipeline
 		sn.Run.mu.Unlock()
@@ -553,8 +579,32 @@ func c08RunScript(t *testing.T, rc c08ScriptRecipe, em *Emitter) []c08Shot {
 	height := uint64(r.Range(1000, 100000))
 	var pool []ocr2keepers.CheckResult
 	var lens []int
+	var busy []ocr2keepers.UpkeepIdentifier // long-id scheme: two log upkeeps with many logs each
+	logCounter := uint32(100)
+	mkRes := func(uid ocr2keepers.UpkeepIdentifier, block uint64) ocr2keepers.CheckResult {
+		res := genResult(r, uid, block)
+		if wgFn != nil {
+			if e := res.Trigger.LogTriggerExtension; e != nil {
+				logCounter++
+				e.Index = logCounter
+			}
+			res.WorkID = wgFn(uid, res.Trigger)
+		}
+		return res
+	}
 	addPool := func(logType bool) int {
-		res := genResult(r, genUpkeepID(r, logType), height-uint64(r.Intn(4)))
+		var res ocr2keepers.CheckResult
+		switch {
+		case rc.LongIDs && r.Chance(65):
+			if len(busy) < 2 {
+				busy = append(busy, genUpkeepID(r, true))
+			}
+			res = mkRes(busy[r.Intn(len(busy))], height-uint64(r.Intn(4)))
+		case !rc.LongIDs && r.Chance(6):
+			res = genResultOtherType(r, height-uint64(r.Intn(4)))
+		default:
+			res = mkRes(genUpkeepID(r, logType), height-uint64(r.Intn(4)))
+		}
 		if r.Chance(4) {
 			res.PerformData = r.Bytes(r.Range(100, 3000))
 		}
@@ -578,6 +628,10 @@ func c08RunScript(t *testing.T, rc c08ScriptRecipe, em *Emitter) []c08Shot {
 	for i := 0; i < rc.NRes; i++ {
 		addPool(r.Chance(60))
 	}
+	wave := make([]int, len(pool)) // churn: the results staged last
+	for i := range wave {
+		wave[i] = i
+	}
 	A.feed(pool, r.Perm(len(pool)))
 	if rc.Variant != "churn" { // churn: node B only joins for the last wave (a sorter that has seen nothing before)
 		B.feed(pool, r.Perm(len(pool)))
@@ -585,7 +639,7 @@ func c08RunScript(t *testing.T, rc c08ScriptRecipe, em *Emitter) []c08Shot {
 	var props []ocr2keepers.CheckResult
 	nl, nc := r.Range(0, 7), r.Range(1, 7)
 	for i := 0; i < nl+nc; i++ {
-		res := genResult(r, genUpkeepID(r, i < nl), height)
+		res := mkRes(genUpkeepID(r, i < nl), height)
 		props = append(props, res)
 		known(res)
 		for _, n := range nodes {
@@ -721,16 +775,40 @@ func c08RunScript(t *testing.T, rc c08ScriptRecipe, em *Emitter) []c08Shot {
 		} else if k > 0 && rc.Variant == "churn" {
 			// everything staged expires; a new wave of as many results arrives: more than 2^14 distinct work ids pass
 			// through node A's staging hook within one ten-sequence window
-			time.Sleep(c08StoreTTL + 35*time.Second)
+			// The collector (a tick every 30 s since the store started) removes the expired wave at its first tick after
+			// the expiry.  A small batch handed to the log provider half a second earlier is picked up by the log flow's
+			// tick at that very instant: the store's Add runs while the collector is at work on thousands of entries.
+			A.mu.Lock()
+			tAdd := A.at[fmt.Sprintf("%s@%d", pool[wave[0]].WorkID, pool[wave[0]].Trigger.BlockNumber)]
+			A.mu.Unlock()
+			g0 := tc
+			for !(g0.Sub(tAdd) > c08StoreTTL) {
+				g0 = g0.Add(c08GcInterval)
+			}
+			time.Sleep(g0.Add(-490 * time.Millisecond).Sub(time.Now()))
+			small := map[int]bool{}
+			var smallIdx []int
+			for j := 0; j < 60; j++ {
+				q := addPool(r.Chance(60))
+				small[q] = true
+				smallIdx = append(smallIdx, q)
+			}
+			A.feed(pool, smallIdx)
+			B.feed(pool, smallIdx)
+			time.Sleep(1000 * time.Millisecond)
+			info["staged-at-a-collector-tick"] = len(smallIdx)
 			for _, n := range nodes {
 				for _, kk := range append([]int{}, n.order...) {
-					n.unstage(kk)
+					if !small[kk] {
+						n.unstage(kk)
+					}
 				}
 			}
 			var idx []int
 			for j := 0; j < rc.NRes; j++ {
 				idx = append(idx, addPool(r.Chance(60)))
 			}
+			wave = idx
 			A.feed(pool, idx)
 			if k == rc.Shots-1 {
 				perm := r.Perm(len(idx))
@@ -793,7 +871,7 @@ func c08RunScript(t *testing.T, rc c08ScriptRecipe, em *Emitter) []c08Shot {
 		// block history
 		if k > 0 && (rc.Reorg || r.Chance(30)) && rc.Variant != "churn" {
 			which := []int{2, 2, 2, 0, 1}[r.Intn(5)]
-			switch r.Intn(6) {
+			switch r.Intn(7) {
 			case 0: // the chain advances
 				top += uint64(r.Range(1, 3))
 				publish(mkHist(top, depth, 0, 0), which)
@@ -806,7 +884,32 @@ func c08RunScript(t *testing.T, rc c08ScriptRecipe, em *Emitter) []c08Shot {
 			case 4: // shorter / longer view with the same head
 				depth = []int{5, 16, 100, 256, 257, 300, 400}[r.Intn(7)]
 				publish(mkHist(top, depth, 0, 0), which)
-			case 5: // nothing new
+			case 5: // a burst: two views queued back to back in the subscription channel, the SECOND one's head is not higher
+				// (same-height reorg right behind the orphaned head / reorg to a lower height / an empty view).  One P while
+				// sending, so that both are in the channel before the store's loop runs.
+				top += 2
+				v1 := mkHist(top, depth, 0, 0)
+				var v2 ocr2keepers.BlockHistory
+				switch r.Intn(3) {
+				case 0:
+					v2 = mkHist(top, depth, r.Range(1, 3), 0)
+				case 1:
+					top--
+					v2 = mkHist(top, depth, 2, 0)
+				default:
+					v2 = ocr2keepers.BlockHistory{}
+				}
+				old := runtime.GOMAXPROCS(1)
+				for i, n := range nodes {
+					if which == 2 || which == i {
+						n.Blocks.Publish(v1)
+						n.Blocks.Publish(v2)
+						n.hist = v2
+					}
+				}
+				runtime.GOMAXPROCS(old)
+				info["history-burst"]++
+			case 6: // nothing new
 			}
 			time.Sleep(300 * time.Millisecond)
 		}
@@ -821,7 +924,7 @@ func c08RunScript(t *testing.T, rc c08ScriptRecipe, em *Emitter) []c08Shot {
 				}
 			}
 			for len(fresh) < 3 {
-				res := genResult(r, genUpkeepID(r, false), height)
+				res := mkRes(genUpkeepID(r, false), height)
 				if len(fresh) == 0 && minWid != "" && res.WorkID > minWid {
 					continue // x must sort before every key already in the store
 				}
@@ -953,6 +1056,7 @@ func c08ScriptGen(r *Rng, i int) c08ScriptRecipe {
 	rc.BothEmpty = r.Chance(40)
 	rc.Reorg = i%3 == 1
 	rc.Readd = i%5 == 2
+	rc.LongIDs = i%4 == 3
 	if i%40 == 13 {
 		return c08ChurnScript(rc.Seed)
 	}
@@ -976,6 +1080,8 @@ func c08ScriptEdge() []c08ScriptRecipe {
 		{Script: true, Seed: 105, Variant: "none", NRes: 10, Seq0: 47, Step: 1, Shots: 6, Shot: -1, Readd: true},
 		{Script: true, Seed: 106, Variant: "inflight-release", NRes: 30, Seq0: 59, Step: 1, Shots: 6, Shot: -1, Reorg: true, Readd: true, BothEmpty: true},
 		c08ChurnScript(107),
+		{Script: true, Seed: 110, Variant: "none", NRes: 160, Seq0: 97, Step: 1, Shots: 8, Shot: -1, LongIDs: true},
+		{Script: true, Seed: 111, Variant: "inflight-release", NRes: 120, Seq0: 118, Step: 3, Shots: 8, Shot: -1, LongIDs: true, Reorg: true},
 		{Script: true, Seed: 108, Variant: "restage", NRes: 12, Seq0: 71, Step: 1, Shot: -1},
 		{Script: true, Seed: 109, Variant: "restage", NRes: 140, Seq0: 85, Step: 1, Shot: -1},
 	}
